@@ -1,4 +1,242 @@
+/-
+  C03 — curved paths and built-in shapes are filled to within the requested tolerance.
+
+  Component theorems about the model of `basic_shapes.rs` (`Model/Tess/BasicShapes.lean`, whose
+  vertex and index buffers are compared bit-for-bit with `tessellate_rectangle` /
+  `tessellate_circle` on every run):
+
+  * `rect_covers_box`, `rect_inside_box`  the two triangles of `fill_rectangle` cover exactly the box
+  * `border_counts`, `circle_counts`      a circle tessellated with recursion depth n has
+                                          4·2ⁿ vertices and 4·2ⁿ − 2 triangles
+  * `circle_vertices_on_circle`           every vertex is at distance exactly r from the centre
+                                          (given cos² + sin² = 1)
+  * `circle_tris_distinct`                every triangle has three pairwise distinct, valid ids
+  * `depth_floor_insufficient_witness` / `depth_ceil_sufficient`   the arithmetic core of the
+                                          repaired defect (`.log2() as u32` truncates: 2^⌊log₂ n⌋
+                                          can be < n; with the ceiling 2^⌈log₂ n⌉ ≥ n)
+
+  Whether curved paths in general (Béziers through the sweep, ellipses, rounded rectangles, two
+  sub-paths sharing a curved edge) are filled within the tolerance is decided per explored input by
+  the slab checker against an independent certified flattening of the exact boundary — translation
+  validation, not a theorem about the sweep.
+-/
 import LyonVerif.Model.Tess.BasicShapes
+import LyonVerif.Lemmas.Field
+
+set_option linter.unusedSectionVars false
+set_option linter.unusedVariables false
+
+geom_all Lyon.Shapes
+
 namespace Lyon.C03
-theorem placeholder : (1:Nat) = 1 := rfl
+open Lyon Lyon.Shapes
+
+variable {K : Type} [Field K] [LinearOrder K] [IsStrictOrderedRing K]
+
+/-! ### rectangle -/
+
+/-- closed triangle membership by the signs of the three edge functions -/
+def inTri (a b c p : P K) : Prop :=
+  (0 ≤ (b - a).cross (p - a) ∧ 0 ≤ (c - b).cross (p - b) ∧ 0 ≤ (a - c).cross (p - c)) ∨
+  ((b - a).cross (p - a) ≤ 0 ∧ (c - b).cross (p - b) ≤ 0 ∧ (a - c).cross (p - c) ≤ 0)
+
+theorem rect_mesh [Transc K] (mn mx : P K) :
+    (fillRectangle mn mx).verts = [mn, ⟨mn.x, mx.y⟩, mx, ⟨mx.x, mn.y⟩] ∧
+    (fillRectangle mn mx).tris = [(0, 1, 2), (0, 2, 3)] := ⟨rfl, rfl⟩
+
+/-- **The two triangles cover the box**: every point of the (closed) box lies in one of them. -/
+theorem rect_covers_box (mn mx p : P K) (hx : mn.x ≤ mx.x) (hy : mn.y ≤ mx.y)
+    (h1 : mn.x ≤ p.x) (h2 : p.x ≤ mx.x) (h3 : mn.y ≤ p.y) (h4 : p.y ≤ mx.y) :
+    inTri mn ⟨mn.x, mx.y⟩ mx p ∨ inTri mn mx ⟨mx.x, mn.y⟩ p := by
+  -- which side of the diagonal mn → mx
+  by_cases hd : 0 ≤ (mx - mn).cross (p - mn)
+  · left; right
+    simp only [geom] at hd ⊢
+    refine ⟨?_, ?_, ?_⟩ <;> nlinarith
+  · right; right
+    push_neg at hd
+    simp only [geom] at hd ⊢
+    refine ⟨?_, ?_, ?_⟩ <;> nlinarith
+
+/-- **…and nothing else**: a point of either triangle is in the box. -/
+theorem rect_inside_box (mn mx p : P K) (hx : mn.x < mx.x) (hy : mn.y < mx.y)
+    (h : inTri mn ⟨mn.x, mx.y⟩ mx p ∨ inTri mn mx ⟨mx.x, mn.y⟩ p) :
+    mn.x ≤ p.x ∧ p.x ≤ mx.x ∧ mn.y ≤ p.y ∧ p.y ≤ mx.y := by
+  have hw : 0 < mx.x - mn.x := by linarith
+  have hh : 0 < mx.y - mn.y := by linarith
+  simp only [inTri, geom] at h
+  rcases h with (⟨a, b, c⟩ | ⟨a, b, c⟩) | (⟨a, b, c⟩ | ⟨a, b, c⟩)
+  all_goals
+    refine ⟨?_, ?_, ?_, ?_⟩ <;> by_contra hc <;> push_neg at hc <;> nlinarith
+
+/-! ### circle: structure -/
+
+section circle
+variable [Transc K]
+
+theorem border_counts (c : P K) (a0 a1 r : K) (va vb n : Nat) (m : Mesh K) :
+    (fillBorderRadius c a0 a1 r va vb n m).verts.length = m.verts.length + (2 ^ n - 1) ∧
+    (fillBorderRadius c a0 a1 r va vb n m).tris.length = m.tris.length + (2 ^ n - 1) := by
+  induction n generalizing a0 a1 va vb m with
+  | zero => simp [fillBorderRadius]
+  | succ n ih =>
+    simp only [fillBorderRadius]
+    have h1 := ih a0 ((a0 + a1) * Scalar.half) va m.verts.length
+      ⟨m.verts ++ [c + (⟨Transc.cos ((a0 + a1) * Scalar.half), Transc.sin ((a0 + a1) * Scalar.half)⟩ : P K).smul r],
+        m.tris ++ [(vb, m.verts.length, va)]⟩
+    have h2 := ih ((a0 + a1) * Scalar.half) a1 m.verts.length vb
+      (fillBorderRadius c a0 ((a0 + a1) * Scalar.half) r va m.verts.length n
+        ⟨m.verts ++ [c + (⟨Transc.cos ((a0 + a1) * Scalar.half), Transc.sin ((a0 + a1) * Scalar.half)⟩ : P K).smul r],
+          m.tris ++ [(vb, m.verts.length, va)]⟩)
+    simp only [List.length_append, List.length_cons, List.length_nil] at h1 h2
+    have hp : 2 ^ (n + 1) = 2 ^ n + 2 ^ n := by rw [pow_succ]; ring
+    have hpos : 1 ≤ 2 ^ n := Nat.one_le_two_pow
+    constructor
+    · rw [h2.1, h1.1, hp]; omega
+    · rw [h2.2, h1.2, hp]; omega
+
+/-- **Counts**: a circle of non-zero radius tessellated with recursion depth
+`n = circleRecursions` has `4·2ⁿ` vertices and `4·2ⁿ − 2` triangles. -/
+theorem circle_counts (c : P K) (r tol : K) (m : Mesh K) (h : fillCircle c r tol = some m) :
+    m.verts.length = 4 * 2 ^ circleRecursions (Scalar.abs r) tol ∧
+    m.tris.length + 2 = 4 * 2 ^ circleRecursions (Scalar.abs r) tol := by
+  unfold fillCircle at h
+  simp only [] at h
+  split at h
+  · exact absurd h (by simp)
+  · injection h with h
+    subst h
+    have hpos : 1 ≤ 2 ^ circleRecursions (Scalar.abs r) tol := Nat.one_le_two_pow
+    simp only [border_counts, List.length_cons, List.length_nil]
+    constructor <;> omega
+
+/-- all vertices produced by `fill_border_radius` lie on the circle -/
+def OnCircle (c : P K) (r : K) (p : P K) : Prop :=
+  (p.x - c.x) * (p.x - c.x) + (p.y - c.y) * (p.y - c.y) = r * r
+
+theorem border_on_circle (hcs : ∀ a : K, Transc.cos a * Transc.cos a + Transc.sin a * Transc.sin a = 1)
+    (c : P K) (a0 a1 r : K) (va vb n : Nat) (m : Mesh K) (h : ∀ p ∈ m.verts, OnCircle c r p) :
+    ∀ p ∈ (fillBorderRadius c a0 a1 r va vb n m).verts, OnCircle c r p := by
+  induction n generalizing a0 a1 va vb m with
+  | zero => simpa [fillBorderRadius] using h
+  | succ n ih =>
+    simp only [fillBorderRadius]
+    apply ih
+    apply ih
+    intro p hp
+    simp only [List.mem_append, List.mem_cons, List.not_mem_nil, or_false] at hp
+    rcases hp with hp | hp
+    · exact h p hp
+    · subst hp
+      have := hcs ((a0 + a1) * Scalar.half)
+      simp only [OnCircle, geom] at this ⊢
+      have e : ∀ (x y : K), (c.x + x * r - c.x) * (c.x + x * r - c.x) + (c.y + y * r - c.y) * (c.y + y * r - c.y)
+          = r * r * (x * x + y * y) := by intros; ring
+      rw [e, this]; ring
+
+/-- **Every vertex of the circle tessellation is exactly on the circle** of radius `|r|` around
+the centre (over a field, given `cos² + sin² = 1`). -/
+theorem circle_vertices_on_circle
+    (hcs : ∀ a : K, Transc.cos a * Transc.cos a + Transc.sin a * Transc.sin a = 1)
+    (c : P K) (r tol : K) (m : Mesh K) (h : fillCircle c r tol = some m) :
+    ∀ p ∈ m.verts, OnCircle c (Scalar.abs r) p := by
+  unfold fillCircle at h
+  simp only [] at h
+  split at h
+  · exact absurd h (by simp)
+  · injection h with h
+    subst h
+    apply border_on_circle hcs
+    apply border_on_circle hcs
+    apply border_on_circle hcs
+    apply border_on_circle hcs
+    intro p hp
+    simp only [List.mem_cons, List.not_mem_nil, or_false] at hp
+    rcases hp with hp | hp | hp | hp <;> subst hp <;> simp only [OnCircle, geom] <;> ring
+
+/-! ### circle: triangles reference three distinct, existing vertices -/
+
+def TriOK (nv : Nat) (t : Tri) : Prop :=
+  t.1 ≠ t.2.1 ∧ t.2.1 ≠ t.2.2 ∧ t.1 ≠ t.2.2 ∧ t.1 < nv ∧ t.2.1 < nv ∧ t.2.2 < nv
+
+theorem triOK_mono {n n' : Nat} (h : n ≤ n') {t : Tri} (ht : TriOK n t) : TriOK n' t := by
+  obtain ⟨a, b, c, d, e, f⟩ := ht
+  exact ⟨a, b, c, by omega, by omega, by omega⟩
+
+theorem border_tris_ok (c : P K) (a0 a1 r : K) (va vb n : Nat) (m : Mesh K)
+    (hab : va ≠ vb) (ha : va < m.verts.length) (hb : vb < m.verts.length)
+    (h : ∀ t ∈ m.tris, TriOK m.verts.length t) :
+    ∀ t ∈ (fillBorderRadius c a0 a1 r va vb n m).tris,
+      TriOK (fillBorderRadius c a0 a1 r va vb n m).verts.length t := by
+  induction n generalizing a0 a1 va vb m with
+  | zero => simpa [fillBorderRadius] using h
+  | succ n ih =>
+    simp only [fillBorderRadius]
+    set mid := (a0 + a1) * Scalar.half
+    set m1 : Mesh K := ⟨m.verts ++ [c + (⟨Transc.cos mid, Transc.sin mid⟩ : P K).smul r],
+      m.tris ++ [(vb, m.verts.length, va)]⟩ with hm1
+    have hlen1 : m1.verts.length = m.verts.length + 1 := by simp [hm1]
+    have h1 : ∀ t ∈ m1.tris, TriOK m1.verts.length t := by
+      intro t ht
+      simp only [hm1, List.mem_append, List.mem_cons, List.not_mem_nil, or_false] at ht
+      rcases ht with ht | ht
+      · exact triOK_mono (by omega) (h t ht)
+      · subst ht
+        show vb ≠ m.verts.length ∧ m.verts.length ≠ va ∧ vb ≠ va ∧ vb < m1.verts.length
+          ∧ m.verts.length < m1.verts.length ∧ va < m1.verts.length
+        refine ⟨by omega, by omega, fun e => hab e.symm, by omega, by omega, by omega⟩
+    set m2 := fillBorderRadius c a0 mid r va m.verts.length n m1 with hm2
+    have hlen2 : m1.verts.length ≤ m2.verts.length := by
+      rw [hm2, (border_counts c a0 mid r va m.verts.length n m1).1]; omega
+    have h2 : ∀ t ∈ m2.tris, TriOK m2.verts.length t :=
+      ih a0 mid va m.verts.length m1 (by omega) (by omega) (by omega) h1
+    exact ih mid a1 m.verts.length vb m2 (by omega) (by omega) (by omega) h2
+
+/-- **Every triangle of the circle tessellation references three pairwise distinct vertices
+that exist.** -/
+theorem circle_tris_distinct (c : P K) (r tol : K) (m : Mesh K) (h : fillCircle c r tol = some m) :
+    ∀ t ∈ m.tris, TriOK m.verts.length t := by
+  unfold fillCircle at h
+  simp only [] at h
+  split at h
+  · exact absurd h (by simp)
+  · injection h with h
+    subst h
+    have len : ∀ (a0 a1 : K) (va vb n : Nat) (mm : Mesh K),
+        mm.verts.length ≤ (fillBorderRadius c a0 a1 (Scalar.abs r) va vb n mm).verts.length := by
+      intro a0 a1 va vb n mm; rw [(border_counts c a0 a1 _ va vb n mm).1]; omega
+    apply border_tris_ok (hab := by decide)
+    · exact lt_of_lt_of_le (by simp) (le_trans (len _ _ _ _ _ _) (le_trans (len _ _ _ _ _ _) (len _ _ _ _ _ _)))
+    · exact lt_of_lt_of_le (by simp) (le_trans (len _ _ _ _ _ _) (le_trans (len _ _ _ _ _ _) (len _ _ _ _ _ _)))
+    apply border_tris_ok (hab := by decide)
+    · exact lt_of_lt_of_le (by simp) (le_trans (len _ _ _ _ _ _) (len _ _ _ _ _ _))
+    · exact lt_of_lt_of_le (by simp) (le_trans (len _ _ _ _ _ _) (len _ _ _ _ _ _))
+    apply border_tris_ok (hab := by decide)
+    · exact lt_of_lt_of_le (by simp) (len _ _ _ _ _ _)
+    · exact lt_of_lt_of_le (by simp) (len _ _ _ _ _ _)
+    apply border_tris_ok (hab := by decide) (ha := by simp) (hb := by simp)
+    intro t ht
+    simp only [List.mem_cons, List.not_mem_nil, or_false] at ht
+    rcases ht with ht | ht <;> subst ht <;> simp [TriOK]
+
+end circle
+
+/-! ### the arithmetic of the recursion depth (the repaired defect) -/
+
+/-- truncating the logarithm can give too few segments: `2^⌊log₂ 79⌋ = 64 < 79`
+(r = 100, tolerance 0.01 needs 79 segments per quadrant; the old code produced 64). -/
+theorem depth_floor_insufficient_witness : 2 ^ Nat.log2 79 < 79 := by decide
+
+/-- with the ceiling there are always enough: `n ≤ 2^⌈log₂ n⌉` -/
+theorem depth_ceil_sufficient (n : Nat) : n ≤ 2 ^ (if n ≤ 1 then 0 else Nat.log2 (n - 1) + 1) := by
+  split
+  · omega
+  · have h := Nat.lt_log2_self (n := n - 1)
+    omega
+
+/-! ### non-vacuity -/
+
+example : inTri (⟨0, 0⟩ : P ℚ) ⟨0, 2⟩ ⟨2, 2⟩ ⟨1/2, 1⟩ := by
+  right; simp [geom]; norm_num
+
 end Lyon.C03
